@@ -10,6 +10,9 @@ def handle (ws : List String) : String :=
   match ws with
   | "mac" :: rest => s!"{Driver.Mac.run rest} ## oracle=ok|-"
   | "doc" :: _ => "doc-handled ## oracle=ok|-"
+  -- a well-formed document with arbitrary key / address / counter values: must restore and
+  -- re-serialise to itself (judged on the Rust side; the model's persist is the identity)
+  | "docrt" :: _ => "doc-handled ## oracle=ok|-"
   -- a device constructed around / handed a restored session (`sess` events of the front-ends)
   | "nbdev" :: rest => s!"{Driver.Nb.run rest} ## oracle=ok|-"
   | "adev" :: rest => s!"{Driver.Dev.run rest} ## oracle=ok|-"
